@@ -789,7 +789,9 @@ impl Parser {
         let mut curly_mode = false;
         if let Some(lexem) = self.next_lexem() {
             if lexem != Lexem::Open && lexem != Lexem::CurlyOpen {
-                if is_boolean_function {
+                // functions without arguments don't require brackets
+                if is_boolean_function || function_expr.function.as_ref().is_some_and(|f| f.is_argless()) {
+                    self.drop_lexem();
                     return Ok(function_expr);
                 }
 
